@@ -34,7 +34,21 @@ func refInteropUnit(libIsClient bool, suite uint16) harness.Unit {
 						var id gmref.Identity
 						needCert := pol == gmtls.RequireAnyClientCert || pol == gmtls.RequireAndVerifyClientCert
 						expectOK := true
-						if libIsClient {
+						tlsMode := suite == gmref.SuiteAESCBC || suite == gmref.SuiteAESGCM
+						if tlsMode && auto {
+							continue
+						}
+						if tlsMode && libIsClient {
+							cfg = &gmtls.Config{RootCAs: p.StdRootsG, ServerName: tlsk.ServerName, Time: tlsk.FixedTime, Rand: wire.NewRand(61), CipherSuites: []uint16{suite}, MinVersion: 0x0303, MaxVersion: 0x0303}
+							if withCert {
+								cfg.Certificates = []gmtls.Certificate{p.StdClient}
+							}
+							id = gmref.Identity{Certs: [][]byte{p.RSA.Certificate[0]}, RSAKey: p.RSAKey}
+						} else if tlsMode {
+							cfg = &gmtls.Config{Certificates: []gmtls.Certificate{p.RSA}, Time: tlsk.FixedTime, Rand: wire.NewRand(62), CipherSuites: []uint16{suite}, ClientAuth: pol, ClientCAs: p.StdRootsG, MinVersion: 0x0303, MaxVersion: 0x0303}
+							id = gmref.Identity{Certs: [][]byte{p.StdClient.Certificate[0]}, TLSKey: p.StdClient.PrivateKey}
+							expectOK = withCert || !needCert
+						} else if libIsClient {
 							cfg = &gmtls.Config{GMSupport: &gmtls.GMSupport{}, RootCAs: p.Roots, ServerName: tlsk.ServerName, Time: tlsk.FixedTime, Rand: wire.NewRand(61), CipherSuites: []uint16{suite}}
 							if withCert {
 								cfg.Certificates = []gmtls.Certificate{p.Client}
@@ -76,10 +90,13 @@ func refInteropUnit(libIsClient bool, suite uint16) harness.Unit {
 							return q.CloseNotify()
 						}
 						setup := func(q *gmref.Peer) {
+							if tlsMode {
+								q.UseTLS()
+							}
 							q.Suites = []uint16{suite}
 							q.Fragment = frag
 							q.RequestCert = pol != gmtls.NoClientCert
-							if q.RequestCert {
+							if q.RequestCert && !tlsMode {
 								q.CAs = [][]byte{p.CA.RawSubject}
 							}
 						}
@@ -113,7 +130,7 @@ func refInteropUnit(libIsClient bool, suite uint16) harness.Unit {
 							}
 						}
 						wantSeen := "ske-signature"
-						if libIsClient {
+						if libIsClient || tlsMode {
 							wantSeen = "peer-finished"
 						}
 						if _, ok := peer.Checks[wantSeen]; !ok {
@@ -161,10 +178,17 @@ func refSizesUnit(libIsClient bool, suite uint16) harness.Unit {
 		}
 		var cfg *gmtls.Config
 		var id gmref.Identity
-		if libIsClient {
+		tlsMode := suite == gmref.SuiteAESCBC || suite == gmref.SuiteAESGCM
+		switch {
+		case tlsMode && libIsClient:
+			cfg = &gmtls.Config{RootCAs: p.StdRootsG, ServerName: tlsk.ServerName, Time: tlsk.FixedTime, Rand: wire.NewRand(65), CipherSuites: []uint16{suite}, MinVersion: 0x0303, MaxVersion: 0x0303}
+			id = gmref.Identity{Certs: [][]byte{p.RSA.Certificate[0]}, RSAKey: p.RSAKey}
+		case tlsMode:
+			cfg = &gmtls.Config{Certificates: []gmtls.Certificate{p.RSA}, Time: tlsk.FixedTime, Rand: wire.NewRand(66), CipherSuites: []uint16{suite}, MinVersion: 0x0303, MaxVersion: 0x0303}
+		case libIsClient:
 			cfg = &gmtls.Config{GMSupport: &gmtls.GMSupport{}, RootCAs: p.Roots, ServerName: tlsk.ServerName, Time: tlsk.FixedTime, Rand: wire.NewRand(65), CipherSuites: []uint16{suite}}
 			id = tlsk.ServerIdentity()
-		} else {
+		default:
 			cfg = &gmtls.Config{GMSupport: &gmtls.GMSupport{}, Certificates: []gmtls.Certificate{p.Sign, p.Enc}, Time: tlsk.FixedTime, Rand: wire.NewRand(66), CipherSuites: []uint16{suite}}
 		}
 		for i, n := range sizes {
@@ -194,7 +218,12 @@ func refSizesUnit(libIsClient bool, suite uint16) harness.Unit {
 			}
 			return q.CloseNotify()
 		}
-		o := tlsk.RunLibVsRef(cfg, libIsClient, tlsk.App{Writes: libWrites, Expect: len(refStream)}, id, 67, func(q *gmref.Peer) { q.Suites = []uint16{suite} }, &gmref.Script{Data: data}, nil)
+		o := tlsk.RunLibVsRef(cfg, libIsClient, tlsk.App{Writes: libWrites, Expect: len(refStream)}, id, 67, func(q *gmref.Peer) {
+			if tlsMode {
+				q.UseTLS()
+			}
+			q.Suites = []uint16{suite}
+		}, &gmref.Script{Data: data}, nil)
 		tag := fmt.Sprintf("library-client=%v suite=%04x: %d payload sizes 2^k-72..2^k+8 (k=9..14) in each direction", libIsClient, suite, len(sizes))
 		c.Add("executions", 1)
 		c.Add("transitions", int64(2*len(sizes)))
